@@ -52,6 +52,7 @@ type clusterCache struct {
 	http2          bool // http2 identifies if the cluster is for an http2 service
 	downstreamAuto bool
 	supportsIPv4   bool
+	supportsIPv6   bool // with supportsIPv4 decides the DNS lookup family of DNS clusters
 
 	// dependent configs
 	service         *model.Service
@@ -84,6 +85,8 @@ func (t *clusterCache) Key() any {
 	h.WriteString(strconv.FormatBool(t.downstreamAuto))
 	h.Write(Separator)
 	h.WriteString(strconv.FormatBool(t.supportsIPv4))
+	h.Write(Separator)
+	h.WriteString(strconv.FormatBool(t.supportsIPv6))
 	h.Write(Separator)
 	h.WriteString(strconv.FormatBool(t.hbone))
 	h.Write(Separator)
@@ -203,6 +206,7 @@ func buildClusterKey(service *model.Service, port *model.Port, cb *ClusterBuilde
 		http2:                   port.Protocol.IsHTTP2(),
 		downstreamAuto:          cb.sidecarProxy() && port.Protocol.IsUnsupported(),
 		supportsIPv4:            cb.supportsIPv4,
+		supportsIPv6:            cb.supportsIPv6,
 		service:                 service,
 		destinationRule:         dr,
 		envoyFilterKeys:         efKeys,
